@@ -229,7 +229,8 @@ def type_entries(td):
     return out
 
 
-def render(td, rng=None, canonical=False, spell=None, vis="pub ", strip=False, extras=True):
+def render(td, rng=None, canonical=False, spell=None, vis="pub ", strip=False, extras=True,
+           order_rng=None, layout=None):
     """Rust text of the definition. `spell(level, trait, params, default)` may override spelling."""
     def sp(level, trait, params):
         if spell:
@@ -238,11 +239,15 @@ def render(td, rng=None, canonical=False, spell=None, vis="pub ", strip=False, e
                 return r
         return A.spell_entry(trait, params, level, rng, canonical=canonical or rng is None)
 
-    if strip:
-        lay = lambda es, ind: ""
-    else:
-        lay = (lambda es, ind: A.layout_attrs(es, None if canonical else rng,
-                                              None if not canonical else "one", ind))
+    def lay(es, ind):
+        if strip:
+            return ""
+        if order_rng is not None:
+            es = list(es)
+            order_rng.shuffle(es)
+        if layout is not None:
+            return A.layout_attrs(es, rng, layout, ind)
+        return A.layout_attrs(es, None if canonical else rng, None if not canonical else "one", ind)
     out = []
     if td.other_derives and not strip:
         out.append("#[derive(%s)]\n" % ", ".join(td.other_derives))
